@@ -22,10 +22,10 @@ Proof. intros Ha. unfold hfac. field. exact Ha. Qed.
 
 (* the expressions of ge, gp inside the generated normal_gravity are those of the generated properties *)
 Ltac name_es a f :=
-  match goal with |- context [sqrt ?e] => replace e with (ges2 a f) by (unfold ges2; field; split; lra) end;
+  match goal with |- context [sqrt ?e] => replace e with (ges2 a f) by (unfold ges2; field; repeat split; lra) end;
   fold (es a f).
 Ltac name_es_in H a f :=
-  match type of H with context [sqrt ?e] => replace e with (ges2 a f) in H by (unfold ges2; field; split; lra) end;
+  match type of H with context [sqrt ?e] => replace e with (ges2 a f) in H by (unfold ges2; field; repeat split; lra) end;
   fold (es a f) in H.
 
 Ltac es_nonzero a f :=
@@ -54,7 +54,7 @@ Lemma g_closed a f GM w lat h : dom a f GM -> mof a f GM w < 1/20 ->
 Proof.
   intros D Hm. pose proof (es_in a f GM D) as Hx. destruct (gE_gP_pos a f GM w D Hm) as [P1 P2].
   pose proof (ge_closed a f GM w D) as HGE. pose proof (gp_closed a f GM w D) as HGP.
-  destruct D as (Ha & Hf & HG).
+  destruct D as (Ha & Hf & HG). assert (Hb : 0 < a*(1-f)) by (apply Rmult_lt_0_compat; lra).
   unfold C16_ge_R in HGE; cbv zeta in HGE. name_es_in HGE a f.
   unfold C16_gp_R in HGP; cbv zeta in HGP. name_es_in HGP a f.
   es_nonzero_in HGE a f. es_nonzero_in HGP a f.
@@ -73,7 +73,7 @@ Lemma g0_closed a f GM w lat : dom a f GM -> mof a f GM w < 1/20 ->
 Proof.
   intros D Hm. pose proof (es_in a f GM D) as Hx. destruct (gE_gP_pos a f GM w D Hm) as [P1 P2].
   pose proof (ge_closed a f GM w D) as HGE. pose proof (gp_closed a f GM w D) as HGP.
-  destruct D as (Ha & Hf & HG).
+  destruct D as (Ha & Hf & HG). assert (Hb : 0 < a*(1-f)) by (apply Rmult_lt_0_compat; lra).
   unfold C16_ge_R in HGE; cbv zeta in HGE. name_es_in HGE a f.
   unfold C16_gp_R in HGP; cbv zeta in HGP. name_es_in HGP a f.
   es_nonzero_in HGE a f. es_nonzero_in HGP a f.
